@@ -223,6 +223,27 @@ def replay_case(rp, w):
     return rr
 
 
+def xmlitem_method_has_caller(op):
+    """is the private XmlItem::<op> called anywhere in info/dom (other than from a function of the same name)?"""
+    d = K.dump()
+    hits = []
+
+    def walk(v, fn_name):
+        if isinstance(v, dict):
+            if v.get("k") == "mcall" and v.get("method") == op and fn_name != op:
+                hits.append(fn_name)
+            for x in v.values():
+                walk(x, fn_name)
+        elif isinstance(v, list):
+            for x in v:
+                walk(x, fn_name)
+    for f, items in d.items.items():
+        for it in items:
+            if "body" in it and "name" in it:
+                walk(it["body"], it["name"])
+    return bool(hits)
+
+
 def main():
     args = common.args_for("C14")
     rep = common.Report(args)
@@ -262,9 +283,13 @@ def main():
         for op in OPS:
             for m in range(0, k + 1):
                 jobs.append((op, k, m, timeout_s))
-    # the per-variant dispatch tables of XmlItem (k = 2: every item is wrapped in the variant)
+    # the per-variant dispatch tables of XmlItem (k = 2: every item is wrapped in the variant).  XmlItem's methods are private:
+    # a table nobody calls is dead code and says nothing about the keys a caller can observe
+    live = [op for op in ("set_order_after", "set_order_before", "clear_order") if xmlitem_method_has_caller(op)]
+    rep.extra["xmlitem_dispatch_tables_checked"] = live
+    rep.extra["xmlitem_dispatch_tables_without_caller"] = [op for op in ("set_order_after", "set_order_before", "clear_order") if op not in live]
     for variant in VARIANTS:
-        for op in ("set_order_after", "set_order_before", "clear_order"):
+        for op in live:
             for m in (0, 2):
                 jobs.append((op, 2, m, timeout_s, variant))
     with mp.Pool(args.jobs) as pool:
